@@ -188,7 +188,10 @@ Definition ev_of (t : Z * Z * Z) : option ev :=
   if op =? 1 then Some (Poll i) else
   if op =? 2 then Some (Drop i) else
   if op =? 3 then Some (Advance a) else
-  if op =? 4 then Some (Complete i (outcome_of b)) else None.
+  if op =? 4 then Some (Complete i (outcome_of b)) else
+  if op =? 5 then Some (Advance 0) else None.
+  (* op 5 = the call future of caller a is created (call()) without being polled: nothing
+     happens in call() for this layer, so the model treats it as a no-op *)
 
 Fixpoint evs_of (l : list (Z * Z * Z)) : list ev :=
   match l with
